@@ -368,3 +368,359 @@ def strategies():
         return op
 
     return dict(config=config, get_op=get_op, helper_op=helper_op)
+
+
+# ---------------------------------------------------------------------------
+# one history
+
+ALGEBRAIC_KEYS = ["alpha", "gammadet", "Ktrace", "betamag", "gxx", "gyz",
+                  "kxx", "kyz", "betax", "betay", "betaz", "gammadown3",
+                  "Kdown3", "betaup3", "Kup3", "A2", "gdet", "gtt", "nup4",
+                  "gup4", "gammaup3", "psi_bssnok", "Adown3", "dtalpha",
+                  "dtbetaup3"]
+
+_DEPS = {}
+
+
+def dependencies():
+    """key -> set of keys it reads (probe run on flat default data)."""
+    if _DEPS:
+        return _DEPS
+    fd = A.make_fd([6, 6, 6], [-0.25, -0.25, -0.25], [0.125] * 3, 2,
+                   "periodic")
+
+    class Probe(aurel.AurelCore):
+        stack = []
+
+        def __getitem__(self, key):
+            if Probe.stack:
+                _DEPS.setdefault(Probe.stack[-1], set()).add(key)
+            if key in self.data:
+                return self.data[key]
+            Probe.stack.append(key)
+            try:
+                return aurel.AurelCore.__getitem__(self, key)
+            finally:
+                Probe.stack.pop()
+    for k in ALL_KEYS:
+        rel = Probe(fd, verbose=False, lmax=2)
+        try:
+            rel[k]
+        except Exception:  # noqa: BLE001
+            pass
+        _DEPS.setdefault(k, set())
+    return _DEPS
+
+
+class Timeout(Exception):
+    pass
+
+
+class Run:
+    TOL = 1e-10
+
+    def __init__(self, mode, cfg, excluded=()):
+        from .common import PropertyFailure  # noqa: F401
+        self.mode = mode
+        self.cfg = cfg
+        self.excluded = set(excluded)
+        self.world = World(cfg)
+        self.readonly = bool(cfg.get("readonly", False)) and mode == "digests"
+        self.rel, self.inputs, self.fd = self.world.new_rel(
+            cache=True, freeze=cfg.get("freeze", "freeze_data"),
+            readonly=self.readonly)
+        self.frozen = {k: (v, digest(v)) for k, v in self.inputs.items()}
+        self.log = []
+        self.classes = {}
+        self.evictions = 0
+        self.guard_before_dependant = 0
+        self.operand_reuse = 0
+        self.cleanups_removed = 0
+        self.tracked = {}     # id -> (array, digest, label)
+        for k, v in self.inputs.items():
+            self.track(v, f"input:{k}")
+        self.prev_keys = set(self.rel.data)
+        self.prev_count = 0
+        self.seen_keys = set()
+
+    def cls(self, name):
+        self.classes[name] = self.classes.get(name, 0) + 1
+
+    def nontrivial(self):
+        if self.mode == "values":
+            return self.evictions > 0 or self.guard_before_dependant > 0
+        if self.mode == "digests":
+            return self.operand_reuse > 0
+        return self.cleanups_removed > 0
+
+    # -- C02 ---------------------------------------------------------------
+    def track(self, a, label):
+        if not isinstance(a, np.ndarray) or a.dtype == object:
+            return
+        for arr in (a, base_of(a)):
+            if id(arr) not in self.tracked:
+                self.tracked[id(arr)] = (arr, digest(arr), label)
+
+    def verify_digests(self, fails, opname):
+        for arr, dg, label in self.tracked.values():
+            if digest(arr) != dg:
+                fails.append((f"modified:{label.split('#')[0]}",
+                              dict(by=opname, array=label)))
+                # re-baseline so that one modification is reported once
+                self.tracked[id(arr)] = (arr, digest(arr), label)
+
+    # -- the step ----------------------------------------------------------
+    def name(self, op):
+        return op["key"] if op["op"] == "get" else \
+            f"{op['helper']}({op['ix']})"
+
+    def step(self, op):
+        from .common import PropertyFailure
+        self.log.append(op)
+        fails = []
+        nm = self.name(op)
+        rel = self.rel
+        was_cached = op["op"] == "get" and op["key"] in rel.data
+        before = set(rel.data)
+        count_before = rel.calculation_count
+        if op["op"] == "get":
+            deps = dependencies().get(op["key"], set())
+            if any(g in rel.data and g not in self.inputs
+                   for g in GUARD_KEYS if g in deps):
+                self.guard_before_dependant += 1
+            if not was_cached and any(
+                    d in rel.data and d not in self.inputs for d in deps):
+                self.operand_reuse += 1
+        try:
+            a = ("ok", self.world.apply(rel, self.fd, op))
+        except RecursionError as e:
+            a = ("raises", type(e).__name__, str(e)[:200])
+        except Exception as e:  # noqa: BLE001
+            a = ("raises", type(e).__name__, str(e)[:200])
+        after = set(rel.data)
+        removed = before - after
+        if removed:
+            self.evictions += 1
+            self.cleanups_removed += 1 if any(
+                k in after for k in self.inputs) else 0
+        self.cls("op:get" if op["op"] == "get" else "op:helper")
+        if was_cached:
+            self.cls("cache-hit")
+
+        if self.mode == "values":
+            self.check_value(op, nm, a, fails)
+        elif self.mode == "digests":
+            if a[0] == "ok":
+                for p, leaf in leaves(a[1]):
+                    self.track(leaf, f"{nm}#{p}")
+            elif "read-only" in a[2]:
+                fails.append((f"write-to-readonly:{nm}", dict(error=a[2])))
+            self.verify_digests(fails, nm)
+        else:
+            self.check_bookkeeping(op, nm, a, before, after, count_before,
+                                   fails)
+        fails = [(d, o) for d, o in fails if d not in self.excluded]
+        if fails:
+            raise PropertyFailure(fails[0][0], fails[0][1], multi=fails)
+
+    # -- C01 ---------------------------------------------------------------
+    def check_value(self, op, nm, a, fails):
+        b = self.world.fresh(op)
+        if a[0] == "raises" or b[0] == "raises":
+            if a[0] == b[0] and a[1] == b[1]:
+                self.cls("both-raise")
+                return
+            fails.append((f"raise-mismatch:{nm}",
+                          dict(history=a[1:] if a[0] == "raises" else "ok",
+                               fresh=b[1:] if b[0] == "raises" else "ok")))
+            return
+        d, where = discrepancy(a[1], b[1])
+        if d <= self.TOL:
+            return
+        bh = self.world.fresh(op, hi=True)
+        E = discrepancy(bh[1], b[1])[0] if bh[0] == "ok" else 0.0
+        if d <= self.TOL + 20 * E:
+            self.cls("branch-difference-within-20E")
+            return
+        # adjudicate: the same history at FD order p+2
+        d_hi = self.replay_discrepancy()
+        if d_hi is not None and d_hi <= max(self.TOL, d / 4):
+            self.cls("adjudicated-discretisation")
+            return
+        fails.append((f"value:{nm}", dict(discrepancy=d, leaf=where, E_k=E,
+                                          discrepancy_at_higher_order=d_hi)))
+
+    def replay_discrepancy(self):
+        w2 = World(self.cfg)
+        try:
+            rel, _, fd = w2.new_rel(cache=True, order=w2.order + 2,
+                                    freeze=self.cfg.get("freeze",
+                                                        "freeze_data"))
+            v = None
+            for op in self.log:
+                try:
+                    v = ("ok", w2.apply(rel, fd, op))
+                except Exception as e:  # noqa: BLE001
+                    v = ("raises", type(e).__name__)
+            bh = self.world.fresh(self.log[-1], hi=True)
+            if v[0] != "ok" or bh[0] != "ok":
+                return None
+            return discrepancy(v[1], bh[1])[0]
+        except Exception:  # noqa: BLE001
+            return None
+
+    # -- C03 ---------------------------------------------------------------
+    def check_bookkeeping(self, op, nm, a, before, after, count_before,
+                          fails):
+        rel = self.rel
+        if a[0] == "raises":
+            b = self.world.fresh(op)
+            if not (b[0] == "raises" and b[1] == a[1]):
+                fails.append((f"raises:{a[1]}", dict(op=nm, error=a[2])))
+        # (i) frozen inputs still there, same object, same contents
+        for k, (arr, dg) in self.frozen.items():
+            if k not in rel.data:
+                fails.append(("frozen-input-evicted", dict(key=k, by=nm)))
+            elif rel.data[k] is not arr:
+                fails.append(("frozen-input-replaced", dict(key=k, by=nm)))
+            elif digest(arr) != dg:
+                fails.append(("frozen-input-altered", dict(key=k, by=nm)))
+                self.frozen[k] = (arr, digest(arr))
+            if rel.var_importance.get(k, 1.0) != 0:
+                fails.append(("frozen-importance-changed", dict(key=k)))
+        # keys the user froze through var_importance are never evicted either
+        for k, imp in self.cfg.get("importance", {}).items():
+            if imp == 0 and k in before and k not in after:
+                fails.append(("importance0-key-evicted", dict(key=k, by=nm)))
+        # (ii) age table describes exactly cached entries
+        extra = set(rel.last_accessed) - set(rel.data)
+        if extra:
+            fails.append(("last_accessed-not-subset-of-data",
+                          dict(keys=sorted(extra)[:5])))
+        # (iv) only whole entries removed: survivors keep object identity
+        # (v) counters
+        if rel.calculation_count < count_before:
+            fails.append(("calculation_count-decreased", {}))
+        bad = [k for k, t in rel.last_accessed.items()
+               if t > rel.calculation_count]
+        if bad:
+            fails.append(("last_accessed-in-the-future", dict(keys=bad[:5])))
+        for k in after:
+            v = rel.data[k]
+            if isinstance(v, np.ndarray) and v.dtype != object and \
+                    not np.all(np.isfinite(v)) and k in self.inputs:
+                fails.append(("frozen-input-altered", dict(key=k)))
+        # (vi) no silent fall-back to defaults: algebraic keys equal fresh
+        if op["op"] == "get" and a[0] == "ok" and \
+                op["key"] in ALGEBRAIC_KEYS:
+            b = self.world.fresh(op)
+            if b[0] == "ok":
+                d, where = discrepancy(a[1], b[1])
+                if d > self.TOL:
+                    fails.append((f"fallback-or-stale:{op['key']}",
+                                  dict(discrepancy=d)))
+
+
+def make_machine(mode, cfg_kwargs, stats, excluded, last, ctl):
+    import time
+
+    from hypothesis import strategies as st
+    from hypothesis.stateful import (RuleBasedStateMachine, initialize,
+                                     precondition, rule)
+
+    from .common import PropertyFailure, fingerprint, to_json
+    S = strategies()
+
+    class Machine(RuleBasedStateMachine):
+        def __init__(self):
+            super().__init__()
+            self.run = None
+            self.dead = False
+
+        @initialize(cfg=S["config"](**cfg_kwargs),
+                    readonly=st.booleans())
+        def init(self, cfg, readonly):
+            cfg = dict(cfg, readonly=readonly)
+            self.run = Run(mode, cfg, excluded)
+
+        def _skip(self):
+            if ctl.get("t_end") and time.time() > ctl["t_end"]:
+                return True
+            if ctl.get("shrink_t0") and \
+                    time.time() - ctl["shrink_t0"] > ctl["shrink_budget"]:
+                return True
+            return self.dead or self.run is None
+
+        def _step(self, op):
+            if self._skip():
+                return
+            try:
+                self.run.step(op)
+            except PropertyFailure as e:
+                self.dead = True
+                last["case"] = to_json(dict(cfg=self.run.cfg,
+                                            ops=self.run.log))
+                last["multi"] = [(d, to_json(o)) for d, o in e.multi]
+                if ctl.get("shrink_t0") is None:
+                    ctl["shrink_t0"] = time.time()
+                raise
+
+        @rule(op=S["get_op"]())
+        def get(self, op):
+            self._step(op)
+
+        @rule(op=S["get_op"]())
+        def get2(self, op):
+            self._step(op)
+
+        @rule(op=S["get_op"]())
+        def get3(self, op):
+            self._step(op)
+
+        @rule(op=S["helper_op"]())
+        def helper(self, op):
+            self._step(op)
+
+        @precondition(lambda self: self.run is not None and self.run.log)
+        @rule(i=st.integers(0, 10 ** 6))
+        def reaccess(self, i):
+            self._step(self.run.log[i % len(self.run.log)])
+
+        def teardown(self):
+            r = self.run
+            if r is None:
+                return
+            stats.evaluations += 1
+            for k, v in r.classes.items():
+                stats.classes[k] = stats.classes.get(k, 0) + v
+            c = r.cfg
+            for k in (c["spec"]["family"], c["boundary"], c["form"],
+                      f"matter={c['matter']}", f"freeze={c.get('freeze')}"):
+                stats.classes[k] = stats.classes.get(k, 0) + 1
+            stats.classes["histories-with-eviction"] = stats.classes.get(
+                "histories-with-eviction", 0) + (1 if r.evictions else 0)
+            stats.classes["steps"] = stats.classes.get("steps", 0) + \
+                len(r.log)
+            if r.nontrivial():
+                case = dict(cfg=r.cfg, ops=r.log)
+                stats.nontrivial.add(fingerprint(case))
+                if len(stats.samples) < 2:
+                    stats.samples.append(to_json(dict(
+                        cfg={k: v for k, v in r.cfg.items() if k != "spec"},
+                        family=r.cfg["spec"]["family"],
+                        ops=[r.name(o) for o in r.log])))
+    return Machine
+
+
+def replay(mode, case, note):
+    from .common import PropertyFailure
+    run = Run(mode, case["cfg"], note.excluded)
+    try:
+        for op in case["ops"]:
+            run.step(op)
+    except PropertyFailure as e:
+        for d, o in e.multi:
+            note.fail(d, o)
+    note.nt(run.nontrivial())
+    for k in run.classes:
+        note.cls(k)
